@@ -1,6 +1,7 @@
-"""Translator: tables extracted from /repo's current *source text* (Python `ast`, the package
-is not imported) into lean/JP/Generated/*.lean. Files are rewritten only when their content
-changes, so an unchanged tree leaves lake's build cache valid. Fails closed."""
+"""Translator: tables extracted from /repo's current *source text* (Python `ast`; the package is not
+imported) into lean/JP/Generated/Tables.lean. The file is rewritten only when its content changes, so
+an unchanged tree leaves lake's build cache valid. Fails closed: an unrecognised construct raises,
+which the checks report as a broken proof obligation."""
 from __future__ import annotations
 
 import ast
@@ -9,6 +10,19 @@ import os
 from . import core
 
 GEN_DIR = os.path.join(core.LEAN_DIR, "JP", "Generated")
+
+
+class TableError(Exception):
+    pass
+
+
+def _src(rel):
+    with open(os.path.join(core.REPO, rel)) as f:
+        return f.read()
+
+
+def _parse(rel):
+    return ast.parse(_src(rel))
 
 
 def _write_if_changed(path, content):
@@ -24,5 +38,387 @@ def _write_if_changed(path, content):
     return True
 
 
+def lstr(s: str) -> str:
+    out = ['"']
+    for ch in s:
+        o = ord(ch)
+        if ch == '"':
+            out.append('\\"')
+        elif ch == "\\":
+            out.append("\\\\")
+        elif ch == "\n":
+            out.append("\\n")
+        elif ch == "\t":
+            out.append("\\t")
+        elif ch == "\r":
+            out.append("\\r")
+        elif o < 0x20 or o == 0x7F:
+            out.append("\\x%02x" % o)
+        else:
+            out.append(ch)
+    out.append('"')
+    return "".join(out)
+
+
+def llist(items) -> str:
+    return "[" + ", ".join(items) + "]"
+
+
+def _class(tree, name):
+    for n in tree.body:
+        if isinstance(n, ast.ClassDef) and n.name == name:
+            return n
+    raise TableError(f"class {name} not found")
+
+
+def _const_int(node, env):
+    """evaluate a small integer expression: literals, names bound in env, + - * ** unary -"""
+    if isinstance(node, ast.Constant) and isinstance(node.value, int):
+        return node.value
+    if isinstance(node, ast.Name) and node.id in env:
+        return env[node.id]
+    if isinstance(node, ast.UnaryOp) and isinstance(node.op, ast.USub):
+        return -_const_int(node.operand, env)
+    if isinstance(node, ast.BinOp):
+        a, b = _const_int(node.left, env), _const_int(node.right, env)
+        if isinstance(node.op, ast.Add):
+            return a + b
+        if isinstance(node.op, ast.Sub):
+            return a - b
+        if isinstance(node.op, ast.Mult):
+            return a * b
+        if isinstance(node.op, ast.Pow):
+            return a ** b
+    raise TableError("not a constant integer expression: " + ast.dump(node)[:80])
+
+
+def _name_of(node):
+    if isinstance(node, ast.Name):
+        return node.id
+    if isinstance(node, ast.Attribute):
+        return node.attr
+    raise TableError("expected a name: " + ast.dump(node)[:80])
+
+
+def _class_assigns(cls):
+    out = {}
+    for n in cls.body:
+        if isinstance(n, ast.Assign) and len(n.targets) == 1 and isinstance(n.targets[0], ast.Name):
+            out[n.targets[0].id] = n.value
+        elif isinstance(n, ast.AnnAssign) and isinstance(n.target, ast.Name) and n.value is not None:
+            out[n.target.id] = n.value
+    return out
+
+
+# ------------------------------------------------------------------ parse.py
+
+def parser_tables():
+    tree = _parse("jsonpath/parse.py")
+    cls = _class(tree, "Parser")
+    asg = _class_assigns(cls)
+    env = {}
+    prec_consts = {}
+    for k, v in asg.items():
+        if k.startswith("PRECEDENCE_"):
+            prec_consts[k] = _const_int(v, env)
+            env[k] = prec_consts[k]
+    def dict_of(name, val):
+        d = asg[name]
+        if not isinstance(d, ast.Dict):
+            raise TableError(f"{name} is not a dict literal")
+        return [(_name_of(k), val(v)) for k, v in zip(d.keys, d.values)]
+    precedences = dict_of("PRECEDENCES", lambda v: prec_consts[_name_of(v)])
+    binops = dict_of("BINARY_OPERATORS", lambda v: v.value)
+    def fset(name):
+        c = asg[name]
+        if not (isinstance(c, ast.Call) and _name_of(c.func) == "frozenset" and isinstance(c.args[0], (ast.List, ast.Tuple))):
+            raise TableError(f"{name} is not frozenset([...])")
+        return [e.value if isinstance(e, ast.Constant) else _name_of(e) for e in c.args[0].elts]
+    return {
+        "prec_consts": prec_consts, "precedences": precedences, "binops": binops,
+        "comparison": fset("COMPARISON_OPERATORS"), "infix_literal": fset("INFIX_LITERAL_OPERATORS"), "prefix": fset("PREFIX_OPERATORS"),
+    }
+
+
+# ------------------------------------------------------------------ filter.py
+
+def filter_tables():
+    tree = _parse("jsonpath/filter.py")
+    consts = {}
+    vte = None
+    classes = {}
+    for n in tree.body:
+        if isinstance(n, ast.Assign) and len(n.targets) == 1 and isinstance(n.targets[0], ast.Name):
+            name = n.targets[0].id
+            if name.startswith("PRECEDENCE_"):
+                consts[name] = _const_int(n.value, consts)
+            if name == "VALUE_TYPE_EXPRESSIONS":
+                vte = [_name_of(e) for e in n.value.elts]
+        if isinstance(n, ast.ClassDef):
+            info = {"bases": [_name_of(b) for b in n.bases if not isinstance(b, ast.Subscript)] + [_name_of(b.value) for b in n.bases if isinstance(b, ast.Subscript)],
+                    "force_cache": None, "volatile": None}
+            for b in n.body:
+                if isinstance(b, ast.Assign) and isinstance(b.targets[0], ast.Name) and b.targets[0].id == "FORCE_CACHE":
+                    info["force_cache"] = bool(b.value.value)
+                if isinstance(b, ast.FunctionDef) and b.name == "__init__":
+                    for s in ast.walk(b):
+                        if isinstance(s, ast.Assign) and isinstance(s.targets[0], ast.Attribute) and s.targets[0].attr == "volatile" and isinstance(s.value, ast.Constant):
+                            info["volatile"] = bool(s.value.value)
+            classes[n.name] = info
+    if vte is None:
+        raise TableError("VALUE_TYPE_EXPRESSIONS not found")
+    return {"consts": consts, "value_type_expressions": vte, "classes": classes}
+
+
+# ------------------------------------------------------------------ env.py + function_extensions
+
+def env_tables():
+    tree = _parse("jsonpath/env.py")
+    cls = _class(tree, "JSONPathEnvironment")
+    asg = _class_assigns(cls)
+    toks = {}
+    for k in ("fake_root_token", "filter_context_token", "intersection_token", "key_token", "keys_selector_token", "root_token", "self_token", "union_token"):
+        v = asg[k]
+        if not (isinstance(v, ast.Constant) and isinstance(v.value, str)):
+            raise TableError(f"{k} is not a string literal")
+        toks[k] = v.value
+    limits = {"max_int_index": _const_int(asg["max_int_index"], {}), "min_int_index": _const_int(asg["min_int_index"], {})}
+    registry = []
+    for n in cls.body:
+        if isinstance(n, ast.FunctionDef) and n.name == "setup_function_extensions":
+            for s in n.body:
+                if isinstance(s, ast.Assign) and isinstance(s.targets[0], ast.Subscript):
+                    key = s.targets[0].slice.value
+                    if isinstance(s.value, ast.Call):
+                        registry.append((key, _name_of(s.value.func)))
+                    elif isinstance(s.value, ast.Subscript):
+                        alias = s.value.slice.value
+                        registry.append((key, dict(registry)[alias]))
+                    else:
+                        raise TableError("unrecognised function registration")
+    sigs = {}
+    fdir = os.path.join(core.REPO, "jsonpath", "function_extensions")
+    for fn in sorted(os.listdir(fdir)):
+        if not fn.endswith(".py"):
+            continue
+        t = ast.parse(open(os.path.join(fdir, fn)).read())
+        for n in t.body:
+            if isinstance(n, ast.ClassDef):
+                bases = [_name_of(b) for b in n.bases]
+                a = _class_assigns(n)
+                if "FilterFunction" in bases and "arg_types" in a and "return_type" in a:
+                    sigs[n.name] = ([_name_of(e) for e in a["arg_types"].elts], _name_of(a["return_type"]))
+    funcs = []
+    for name, clsname in registry:
+        if clsname in sigs:
+            funcs.append((name, sigs[clsname][0], sigs[clsname][1]))
+        else:
+            funcs.append((name, None, None))
+    return {"tokens": toks, "limits": limits, "functions": funcs}
+
+
+# ------------------------------------------------------------------ pointer.py
+
+def pointer_tables():
+    tree = _parse("jsonpath/pointer.py")
+    cls = _class(tree, "JSONPointer")
+    asg = _class_assigns(cls)
+    out = {"keys_selector": asg["keys_selector"].value, "max_int_index": _const_int(asg["max_int_index"], {}), "min_int_index": _const_int(asg["min_int_index"], {})}
+    for n in tree.body:
+        if isinstance(n, ast.Assign) and isinstance(n.targets[0], ast.Name) and n.targets[0].id in ("RE_RELATIVE_POINTER", "RE_INDEX_TOKEN"):
+            call = n.value
+            if not (isinstance(call, ast.Call) and _name_of(call.func) == "compile" and isinstance(call.args[0], ast.Constant)):
+                raise TableError("regular expression is not re.compile(<literal>)")
+            out[n.targets[0].id] = call.args[0].value
+    if "RE_RELATIVE_POINTER" not in out or "RE_INDEX_TOKEN" not in out:
+        raise TableError("pointer regular expressions not found")
+    return out
+
+
+# ------------------------------------------------------------------ exceptions.py
+
+def exception_tables():
+    tree = _parse("jsonpath/exceptions.py")
+    return [(n.name, [_name_of(b) for b in n.bases]) for n in tree.body if isinstance(n, ast.ClassDef)]
+
+
+# ------------------------------------------------------------------ lex.py
+
+def lexer_tables():
+    tree = _parse("jsonpath/lex.py")
+    cls = _class(tree, "Lexer")
+    rules, env_tokens, sort_desc = [], [], None
+    for n in cls.body:
+        if isinstance(n, ast.FunctionDef) and n.name == "compile_rules":
+            for s in n.body:
+                if isinstance(s, ast.Assign) and isinstance(s.targets[0], ast.Name) and s.targets[0].id == "env_tokens":
+                    env_tokens = [(_name_of(e.elts[0]), _name_of(e.elts[1])) for e in s.value.elts]
+                if isinstance(s, ast.Assign) and isinstance(s.targets[0], ast.Name) and s.targets[0].id == "rules":
+                    for e in s.value.elts:
+                        if isinstance(e, ast.Tuple):
+                            pat = e.elts[1]
+                            rules.append((_name_of(e.elts[0]), pat.value if isinstance(pat, ast.Constant) else "<" + _name_of(pat) + ">"))
+                        elif isinstance(e, ast.Starred):
+                            comp = e.value
+                            srt = comp.generators[0].iter
+                            if not (isinstance(srt, ast.Call) and _name_of(srt.func) == "sorted"):
+                                raise TableError("environment tokens are not spliced through sorted()")
+                            kw = {k.arg: k.value for k in srt.keywords}
+                            rev = kw.get("reverse")
+                            key = kw.get("key")
+                            by_len = key is not None and "len" in ast.dump(key)
+                            sort_desc = bool(by_len and isinstance(rev, ast.Constant) and rev.value is True)
+                            rules.append(("<ENV_TOKENS>", ""))
+                        else:
+                            raise TableError("unrecognised lexer rule")
+    if not rules or sort_desc is None:
+        raise TableError("lexer rule list not recognised")
+    asg = _class_assigns(cls)
+    pats = {k: asg[k].value for k in ("key_pattern", "logical_not_pattern", "logical_and_pattern", "logical_or_pattern") if k in asg}
+    return {"rules": rules, "env_tokens": env_tokens, "longest_first": sort_desc, "patterns": pats}
+
+
+# ------------------------------------------------------------------ cli.py
+
+def cli_tables():
+    tree = _parse("jsonpath/cli.py")
+    handlers = {}
+    subcmd = {}
+    for n in tree.body:
+        if isinstance(n, ast.FunctionDef) and n.name.startswith("handle_") and n.name.endswith("_command"):
+            tries = []
+            reads = sorted({a.attr for a in ast.walk(n) if isinstance(a, ast.Attribute) and isinstance(a.value, ast.Name) and a.value.id == "args"})
+            for s in n.body:
+                if isinstance(s, ast.Try):
+                    hs = []
+                    for h in s.handlers:
+                        if h.type is None:
+                            classes = ["BaseException"]
+                        elif isinstance(h.type, ast.Tuple):
+                            classes = [_name_of(e) for e in h.type.elts]
+                        else:
+                            classes = [_name_of(h.type)]
+                        debug_reraise = any(isinstance(x, ast.If) and "debug" in ast.dump(x.test) and any(isinstance(y, ast.Raise) for y in x.body) for x in h.body)
+                        writes_err = any(isinstance(x, ast.Call) and "stderr" in ast.dump(x.func) for x in ast.walk(h))
+                        exits = [x.args[0].value for x in ast.walk(h) if isinstance(x, ast.Call) and isinstance(x.func, ast.Attribute) and x.func.attr == "exit" and x.args and isinstance(x.args[0], ast.Constant)]
+                        hs.append((classes, debug_reraise, writes_err, exits[0] if exits else -1))
+                    calls = sorted({_name_of(c.func) for b in s.body for c in ast.walk(b) if isinstance(c, ast.Call)})
+                    tries.append((calls, hs))
+            handlers[n.name] = {"tries": tries, "reads": reads}
+        if isinstance(n, ast.FunctionDef) and n.name.endswith("_sub_command"):
+            dests = []
+            for c in ast.walk(n):
+                if isinstance(c, ast.Call) and isinstance(c.func, ast.Attribute) and c.func.attr == "add_argument":
+                    flags = [a.value for a in c.args if isinstance(a, ast.Constant)]
+                    kw = {k.arg: k.value for k in c.keywords}
+                    if "dest" in kw:
+                        dests.append(kw["dest"].value)
+                    else:
+                        longs = [f for f in flags if f.startswith("--")]
+                        base = longs[0][2:] if longs else flags[0].lstrip("-")
+                        dests.append(base.replace("-", "_"))
+            func = None
+            for c in ast.walk(n):
+                if isinstance(c, ast.Call) and isinstance(c.func, ast.Attribute) and c.func.attr == "set_defaults":
+                    func = _name_of({k.arg: k.value for k in c.keywords}["func"])
+            subcmd[n.name] = {"dests": dests, "func": func}
+    glob = []
+    for n in tree.body:
+        if isinstance(n, ast.FunctionDef) and n.name == "setup_parser":
+            for c in ast.walk(n):
+                if isinstance(c, ast.Call) and isinstance(c.func, ast.Attribute) and c.func.attr == "add_argument" and isinstance(c.func.value, ast.Name) and c.func.value.id == "parser":
+                    flags = [a.value for a in c.args if isinstance(a, ast.Constant)]
+                    longs = [f for f in flags if f.startswith("--")]
+                    glob.append((longs[0][2:] if longs else flags[0].lstrip("-")).replace("-", "_"))
+            for c in ast.walk(n):
+                if isinstance(c, ast.Call) and isinstance(c.func, ast.Attribute) and c.func.attr == "add_subparsers":
+                    kw = {k.arg: k.value for k in c.keywords}
+                    if "dest" in kw:
+                        glob.append(kw["dest"].value)
+    glob.append("func")
+    if len(handlers) != 3 or len(subcmd) != 3:
+        raise TableError("expected three CLI sub-commands and handlers")
+    return {"handlers": handlers, "subcommands": subcmd, "global_dests": glob}
+
+
+def extract_all():
+    return {"parser": parser_tables(), "filter": filter_tables(), "env": env_tables(), "pointer": pointer_tables(),
+            "exceptions": exception_tables(), "lexer": lexer_tables(), "cli": cli_tables()}
+
+
+def render_lean(t) -> str:
+    L = []
+    a = L.append
+    a("/-\n  GENERATED by harness/tables.py from /repo's current source text. Do not edit: it is rewritten on\n  every run of every check (only when the extracted content changes).\n-/")
+    a("namespace JP.Generated\n")
+    p = t["parser"]
+    a("/-- parse.py: Parser.PRECEDENCES (token kind → precedence) -/")
+    a("def precedences : List (String × Nat) := " + llist(f"({lstr(k)}, {v})" for k, v in p["precedences"]))
+    a("/-- parse.py: Parser.PRECEDENCE_* constants -/")
+    a("def parserPrecConsts : List (String × Nat) := " + llist(f"({lstr(k)}, {v})" for k, v in sorted(p["prec_consts"].items())))
+    a("/-- parse.py: Parser.BINARY_OPERATORS (token kind → operator spelling) -/")
+    a("def binaryOperators : List (String × String) := " + llist(f"({lstr(k)}, {lstr(v)})" for k, v in p["binops"]))
+    a("def comparisonOperators : List String := " + llist(lstr(x) for x in sorted(p["comparison"])))
+    a("def infixLiteralOperators : List String := " + llist(lstr(x) for x in sorted(p["infix_literal"])))
+    a("def prefixOperators : List String := " + llist(lstr(x) for x in sorted(p["prefix"])))
+    f = t["filter"]
+    a("\n/-- filter.py: serializer precedence constants -/")
+    a("def filterPrecConsts : List (String × Nat) := " + llist(f"({lstr(k)}, {v})" for k, v in sorted(f["consts"].items())))
+    a("def valueTypeExpressions : List String := " + llist(lstr(x) for x in f["value_type_expressions"]))
+    def ob(b):
+        return "none" if b is None else ("some true" if b else "some false")
+    a("/-- filter.py: per class (name, bases, FORCE_CACHE, hard-coded `self.volatile = …` in __init__) -/")
+    a("def filterClasses : List (String × List String × Option Bool × Option Bool) := " +
+      llist(f"({lstr(k)}, {llist(lstr(b) for b in v['bases'])}, {ob(v['force_cache'])}, {ob(v['volatile'])})" for k, v in f["classes"].items()))
+    e = t["env"]
+    a("\n/-- env.py: default identifier tokens -/")
+    a("def envTokens : List (String × String) := " + llist(f"({lstr(k)}, {lstr(v)})" for k, v in sorted(e["tokens"].items())))
+    a(f"def envMaxIntIndex : Int := {e['limits']['max_int_index']}")
+    a(f"def envMinIntIndex : Int := {e['limits']['min_int_index']}")
+    a("/-- env.py + function_extensions/*.py: registered name, parameter types, return type (`none`: not a FilterFunction) -/")
+    def fn(x):
+        name, args, ret = x
+        if args is None:
+            return f"({lstr(name)}, none)"
+        return f"({lstr(name)}, some ({llist(lstr(z) for z in args)}, {lstr(ret)}))"
+    a("def functions : List (String × Option (List String × String)) := " + llist(fn(x) for x in e["functions"]))
+    pt = t["pointer"]
+    a("\n/-- pointer.py -/")
+    a(f"def pointerKeysSelector : String := {lstr(pt['keys_selector'])}")
+    a(f"def pointerMaxIntIndex : Int := {pt['max_int_index']}")
+    a(f"def pointerMinIntIndex : Int := {pt['min_int_index']}")
+    a(f"def reRelativePointer : String := {lstr(pt['RE_RELATIVE_POINTER'])}")
+    a(f"def reIndexToken : String := {lstr(pt['RE_INDEX_TOKEN'])}")
+    a("\n/-- exceptions.py: class → bases -/")
+    a("def exceptionClasses : List (String × List String) := " + llist(f"({lstr(k)}, {llist(lstr(b) for b in bs)})" for k, bs in t["exceptions"]))
+    lx = t["lexer"]
+    a("\n/-- lex.py: the ordered rule list (token kind, pattern text or <attribute>); `<ENV_TOKENS>` marks the splice -/")
+    a("def lexerRules : List (String × String) := " + llist(f"({lstr(k)}, {lstr(v)})" for k, v in lx["rules"]))
+    a("def lexerEnvTokens : List (String × String) := " + llist(f"({lstr(k)}, {lstr(v)})" for k, v in lx["env_tokens"]))
+    a(f"def lexerEnvTokensLongestFirst : Bool := {'true' if lx['longest_first'] else 'false'}")
+    a("def lexerPatterns : List (String × String) := " + llist(f"({lstr(k)}, {lstr(v)})" for k, v in sorted(lx["patterns"].items())))
+    c = t["cli"]
+    a("\n/-- cli.py: per handler, its `try` blocks: (functions called in the body, handlers: (classes, --debug re-raises, writes stderr, exit code)) -/")
+    def tr(x):
+        calls, hs = x
+        return f"({llist(lstr(z) for z in calls)}, " + llist(f"({llist(lstr(k) for k in cl)}, {'true' if d else 'false'}, {'true' if w else 'false'}, {ex})" for cl, d, w, ex in hs) + ")"
+    a("def cliHandlers : List (String × List (List String × List (List String × Bool × Bool × Int))) := " +
+      llist(f"({lstr(k)}, {llist(tr(x) for x in v['tries'])})" for k, v in sorted(c["handlers"].items())))
+    a("/-- cli.py: every `args.<attr>` a handler reads -/")
+    a("def cliAttrReads : List (String × List String) := " + llist(f"({lstr(k)}, {llist(lstr(z) for z in v['reads'])})" for k, v in sorted(c["handlers"].items())))
+    a("/-- cli.py: per sub-command: the handler it installs and the argparse dests it defines -/")
+    a("def cliSubcommands : List (String × String × List String) := " + llist(f"({lstr(k)}, {lstr(v['func'])}, {llist(lstr(z) for z in v['dests'])})" for k, v in sorted(c["subcommands"].items())))
+    a("def cliGlobalDests : List String := " + llist(lstr(z) for z in c["global_dests"]))
+    a("\nend JP.Generated\n")
+    return "\n".join(L)
+
+
 def regenerate():
-    return []
+    t = extract_all()
+    content = render_lean(t)
+    changed = _write_if_changed(os.path.join(GEN_DIR, "Tables.lean"), content)
+    return [os.path.join(GEN_DIR, "Tables.lean")] if changed else []
+
+
+if __name__ == "__main__":
+    print(regenerate())
